@@ -76,7 +76,7 @@ package discovery
 //@        (presentation.IsType(retractionPresentationType)
 //@          ? (isNilIface(ret(call (*Module).validateRetraction #1)) && arg(call (*Module).validateRetraction #1, 1) == definition.ID && same(arg(call (*Module).validateRetraction #1, 2), presentation))
 //@          : (isNilIface(ret(call (*Module).validateRegistration #1)) && same(arg(call (*Module).validateRegistration #1, 1), definition) && same(arg(call (*Module).validateRegistration #1, 2), presentation)))
-//@   ensures [signatures-verified-with-trust-and-revocation] isNilIface(result) ==> isNilIface(ret(call (verifier.Verifier).VerifyVP #1).1)
+//@   ensures [presentation-and-its-credentials-verified] isNilIface(result) ==> isNilIface(ret(call (verifier.Verifier).VerifyVP #1).1)
 //@        && same(arg(call (verifier.Verifier).VerifyVP #1, 1), presentation) && arg(call (verifier.Verifier).VerifyVP #1, 2) == true
 //@        && arg(call (verifier.Verifier).VerifyVP #1, 3) == true && arg(call (verifier.Verifier).VerifyVP #1, 4) == nil
 
